@@ -2,11 +2,12 @@ package main
 
 import (
 	"fmt"
-	"os"
 	"go/constant"
 	"go/types"
+	"os"
 	"sort"
 	"strings"
+	"time"
 
 	"golang.org/x/tools/go/ssa"
 )
@@ -68,11 +69,11 @@ func (c *aeCtx) rootArgs(r *aeRun, root *ssa.Function) []any {
 }
 
 // candidates for a demanded atom, filtered by the consistency constraints:
-//  - a value derived from bases (Atoi(x), len(x), zip order of Split(x)) is equal for
-//    individuals whose bases are equal;
-//  - pairwise relations inside one gap extend to a weak order;
-//  - presence at the generic position agrees with the lengths (shorter sequence absent first,
-//    length 0 never present).
+//   - a value derived from bases (Atoi(x), len(x), zip order of Split(x)) is equal for
+//     individuals whose bases are equal;
+//   - pairwise relations inside one gap extend to a weak order;
+//   - presence at the generic position agrees with the lengths (shorter sequence absent first,
+//     length 0 never present).
 func (c *aeCtx) candidates(w *world, na needAtom) []int {
 	ti := c.terms[na.key]
 	var out []int
@@ -272,6 +273,9 @@ func (c *aeCtx) explore(n int, limit int, body func(w *world)) int {
 	count := 0
 	var rec func(w *world)
 	rec = func(w *world) {
+		if !c.started.IsZero() && time.Since(c.started) > c.budget {
+			panic(tooLarge{})
+		}
 		var need *needAtom
 		func() {
 			defer func() {
